@@ -118,6 +118,41 @@ def run(run):
             except Exception as ex:
                 e["raised"] = True
             add(e, "PerfectChannel", {"channel": "PerfectChannel", "complex": cplx, "ndim": len(shape)})
+    from kaira.channels import NonlinearChannel
+    fns = {"tanh": (torch.tanh, torch.tanh), "cubic": ((lambda v: v + 0.2 * v ** 3), (lambda v: v + 0.2 * v ** 3)), "clip": ((lambda v: torch.clamp(v, -0.5, 0.5)), (lambda v: torch.clamp(v, -0.5, 0.5)))}
+    for fname, (f, fd) in fns.items():
+        for mode in ("real", "cartesian", "polar", "direct"):
+            for shape in [(64,), (1, 64), (4, 16), (2, 2, 16)]:
+                cfg = {"channel": "NonlinearChannel", "fn": fname, "mode": mode, "ndim": len(shape)}
+                e = {"ev": "Nonlinear", "raised": False, "mode": mode, "err_ppm": 0, "phase_err_ppm": 0, "shape_ok": True}
+                try:
+                    if mode == "real":
+                        x = torch.randn(shape)
+                        y = NonlinearChannel(f)(x)
+                        ref = fd(x.double())
+                        e["shape_ok"] = tuple(y.shape) == shape and not y.is_complex()
+                        e["err_ppm"] = sint(float((y.double() - ref).abs().max()) / max(float(ref.abs().max()), 1e-30) * 1e6)
+                    else:
+                        if mode == "direct" and fname == "clip":
+                            continue            # clamp is not defined for complex tensors
+                        x = torch.complex(torch.randn(shape), torch.randn(shape))
+                        y = NonlinearChannel(f, complex_mode=mode)(x)
+                        xd = x.to(torch.complex128)
+                        if mode == "cartesian":
+                            ref = torch.complex(fd(xd.real), fd(xd.imag))
+                        elif mode == "polar":
+                            ref = torch.polar(fd(xd.abs()), torch.angle(xd))
+                        else:
+                            ref = fd(xd)
+                        e["shape_ok"] = tuple(y.shape) == shape and y.is_complex()
+                        e["err_ppm"] = sint(float((y.to(torch.complex128) - ref).abs().max()) / max(float(ref.abs().max()), 1e-30) * 1e6)
+                        if mode == "polar":
+                            nz = (y.abs() > 1e-6) & (xd.abs() > 1e-6)
+                            e["phase_err_ppm"] = sint(float(torch.angle(y.to(torch.complex128)[nz] * torch.conj(xd[nz])).abs().max()) * 1e6) if bool(nz.any()) else 0
+                except Exception as ex:
+                    e["raised"] = True
+                    e["error"] = repr(ex)[:100]
+                add(e, "NonlinearChannel", cfg)
     run.log("%d events" % len(evs))
     mism = tv.validate(run, "Trace_ChannelLaws", evs, name="TV X04", timeout=900)
     seen = set()
